@@ -30,7 +30,8 @@ ASSUMPTIONS = [
 ]
 
 METRICS = ('anova', 'nicv', 'snr')
-CLASS_LISTS = [(1, 0, 1), (2, 0, 1), (2, 5, 3), (3, 0, 1), (3, 1, 2), (4, 1, 2), (5, 0, 1), (8, 0, 1), (9, 0, 1), (9, 1, 1), (10, 0, 1), (16, 0, 2), (64, 0, 1)]
+CLASS_LISTS = [(1, 0, 1), (2, 0, 1), (2, 5, 3), (3, 0, 1), (3, 1, 2), (4, 1, 2), (5, 0, 1), (8, 0, 1), (9, 0, 1), (9, 1, 1), (10, 0, 1), (16, 0, 2), (64, 0, 1),
+               (5, -2, 1), (4, -3, 2), (3, -300, 300)]        # signed intermediate values: classes may be negative values
 AUTO_MAX = [0, 1, 7, 8, 9, 10, 62, 63, 64, 65, 200, 254, 255]
 
 
@@ -59,6 +60,7 @@ def run_instance(case, obj=None):
     if kernels:
         obj._verif_force_kernel = list(kernels)
     mid = list(case.get('mid_computes') or [])
+    held = []
     with warnings.catch_warnings():
         warnings.simplefilter('ignore')
         for bi, (a, b) in enumerate(zip(cuts, cuts[1:])):
@@ -75,8 +77,13 @@ def run_instance(case, obj=None):
                 else:
                     must(case, '%s.update' % metric, obj.update, gen.relayout(traces[a:b], lt), gen.relayout(data[a:b], ld))
                 if bi < len(mid) and mid[bi]:
-                    must(case, '%s.compute between batches' % metric, obj.compute)      # must not disturb what follows
+                    r = must(case, '%s.compute between batches' % metric, obj.compute)      # must not disturb what follows
+                    held.append((bi, r, np.array(r, copy=True)))
         res = must(case, '%s.compute' % metric, obj.compute)
+        for bi, r, snapshot in held:
+            # a result obtained earlier stays what it was: it is the statistic of the batches processed up to then
+            if not dist.same(r, snapshot):
+                raise Violation('%s: the array returned by compute() after batch %d changed when later batches were processed / compute() was called again' % (metric, bi + 1), case)
         if case.get('compute_twice'):
             _first = np.array(res, copy=True)
             if isinstance(res, np.ndarray) and res.flags.writeable:
@@ -247,8 +254,8 @@ def cases(draw, precision, int_dtype, float_dtype, large=False):
         classes = [start + stride * i for i in range(k)]
         partitions = classes
         labels = draw_labels(draw, g, n, W, classes, first_len)
-    maxlab = int(labels.max())
-    ddt = draw(st.sampled_from([d for d in gen.CLASS_DTYPES if maxlab <= np.iinfo(d).max]))
+    maxlab, minlab = int(labels.max()), int(labels.min())
+    ddt = draw(st.sampled_from([d for d in gen.CLASS_DTYPES if maxlab <= np.iinfo(d).max and minlab >= np.iinfo(d).min]))
     if np.dtype(ddt).kind == 'i' and draw(st.integers(0, 2)) == 0 and (mode != 'auto' or first_len < n):
         # signed data may carry negative values: they are not classes (with automatic classes only after the first batch, which must be non-negative)
         lo_pos = first_len if mode == 'auto' else 0
@@ -281,6 +288,8 @@ def cases(draw, precision, int_dtype, float_dtype, large=False):
                 c = np.clip(labels[:, w] % 7 + g.integers(-2, 3, size=n), lo, hi)
             tcols.append(c)
         traces = np.stack(tcols, axis=1).astype(tdt)
+        if draw(st.integers(0, 5)) == 0:
+            traces[:, 0] = 0          # a first sample that is exactly zero for every trace (zero padding, masked area)
     else:
         tdt = float_dtype
         offset = draw(st.sampled_from([0.0, 0.0, 1.0, 4.0] if precision == 'float32' else [0.0, 10.0, 1000.0]))
